@@ -44,7 +44,8 @@ def main():
         rc, out = sh("git apply %s" % demo); assert rc == 0, out
         filt = " ".join(names)
         # CONFIRM_DEMO_FLAGS: extra cargo flags for the demonstration only (a demonstration inside feature-gated code)
-        cmd = "cargo test -p ipa-core --lib --offline %s -- %s" % (os.environ.get("CONFIRM_DEMO_FLAGS", ""), filt)
+        # CONFIRM_DEMO_TARGET: e.g. "--test name" for a demonstration delivered as an integration test
+        cmd = "cargo test -p ipa-core %s --offline %s -- %s" % (os.environ.get("CONFIRM_DEMO_TARGET", "--lib"), os.environ.get("CONFIRM_DEMO_FLAGS", ""), filt)
         rc1, out1 = sh(cmd)
         m1 = re.search(r"test result: (\w+)\. (\d+) passed; (\d+) failed", out1)
         meta["ran"].append({"cmd": cmd + "   # demonstration, unchanged tree", "rc": rc1, "result": m1.group(0) if m1 else out1[-300:]})
